@@ -228,6 +228,9 @@ func (ec *evalCtx) evalIdent(x *ast.Ident) Value {
 		if !ec.noLocals {
 			if obj, ok := ec.st.names[x.Name]; ok {
 				if v, ok := ec.st.vars[obj]; ok {
+					if bx, isBox := v.(*boxedV); isBox {
+						return ec.st.heap[bx.Obj]
+					}
 					return v
 				}
 			}
@@ -256,6 +259,9 @@ func (ec *evalCtx) evalIdent(x *ast.Ident) Value {
 		return ec.e().zeroValue(ec.st, ec.info.TypeOf(x))
 	case *types.Var:
 		if v, ok := ec.st.vars[o]; ok {
+			if bx, isBox := v.(*boxedV); isBox {
+				return ec.st.heap[bx.Obj]
+			}
 			return v
 		}
 		if o.Parent() == o.Pkg().Scope() {
@@ -988,6 +994,9 @@ func (e *Engine) boxIface(st *State, v Value, from types.Type) *IfaceV {
 	}
 	if t, ok := v.(*Term); ok && t.Sort == SInt {
 		id = t
+	}
+	if f, ok := v.(*FuncV); ok {
+		id = f.Id // a function value keeps its identity when stored in an interface
 	}
 	return &IfaceV{Tag: Int(tag), Id: id, Payloads: map[string]Value{name: v}}
 }
